@@ -122,6 +122,10 @@ fn pass_1_internal(
     for (line, item) in &segment.items {
         match item {
             Item::Label(name) => {
+                // a name stands for one thing: a constant of the same name would silently be taken for the label
+                if common_context.exist(name) {
+                    bail!("Identifier {} is used twice, {}", name, line);
+                }
                 if let Some(_) = common_context.set_label(name.clone(), (segment.t, cur_address)) {
                     // TODO: add display current string of mistake and previous location
                     bail!("Identifier {} is used twice, {}", name, line);
